@@ -179,6 +179,71 @@ pub mod std_shim {
                 None => ::std::thread::sleep(d),
             }
         }
+
+        /// `std::thread::scope` whose threads belong to the simulation: the scope's implicit join
+        /// happens in simulation first (also when the body panics), then for real.
+        pub struct Scope<'scope, 'env: 'scope> {
+            inner: &'scope ::std::thread::Scope<'scope, 'env>,
+            tokens: ::std::sync::Arc<::std::sync::Mutex<Vec<u64>>>,
+        }
+        pub struct ScopedJoinHandle<'scope, T>(::std::thread::ScopedJoinHandle<'scope, T>, Option<u64>);
+        impl<'scope, T> ScopedJoinHandle<'scope, T> {
+            pub fn join(self) -> ::std::thread::Result<T> {
+                if let (Some(h), Some(t)) = (vh::hooks(), self.1) {
+                    h.join_wait(t);
+                }
+                self.0.join()
+            }
+            pub fn is_finished(&self) -> bool {
+                if let (Some(h), Some(t)) = (vh::hooks(), self.1) {
+                    return h.thread_finished(t);
+                }
+                self.0.is_finished()
+            }
+        }
+        pub fn scope<'env, F, T>(f: F) -> T
+        where
+            F: for<'scope> FnOnce(&Scope<'scope, 'env>) -> T,
+        {
+            let tokens = ::std::sync::Arc::new(::std::sync::Mutex::new(Vec::new()));
+            ::std::thread::scope(|rs| {
+                let s = Scope { inner: rs, tokens: tokens.clone() };
+                let r = ::std::panic::catch_unwind(::std::panic::AssertUnwindSafe(|| f(&s)));
+                if let Some(h) = vh::hooks() {
+                    let t = tokens.lock().unwrap().clone();
+                    h.scope_wait_all(&t);
+                }
+                match r {
+                    Ok(v) => v,
+                    Err(e) => ::std::panic::resume_unwind(e),
+                }
+            })
+        }
+        impl<'scope, 'env> Scope<'scope, 'env> {
+            pub fn spawn<F, T>(&self, f: F) -> ScopedJoinHandle<'scope, T>
+            where
+                F: FnOnce() -> T + Send + 'scope,
+                T: Send + 'scope,
+            {
+                let h = vh::hooks();
+                let token = h.as_ref().map(|h| h.spawn_token(None));
+                if let Some(t) = token {
+                    self.tokens.lock().unwrap().push(t);
+                }
+                let jh = self.inner.spawn(move || {
+                    let _exit = match (h, token) {
+                        (Some(h), Some(t)) => {
+                            vh::set_in_sim(true);
+                            h.thread_enter(t);
+                            Some(ExitOnDrop(h, t))
+                        }
+                        _ => None,
+                    };
+                    f()
+                });
+                ScopedJoinHandle(jh, token)
+            }
+        }
     }
 
     pub mod time {
@@ -271,6 +336,59 @@ pub mod std_shim {
 
     pub mod sync {
         pub use ::std::sync::*;
+
+        /// `std::sync::Mutex` whose ownership is known to the simulator (so that a thread holding it
+        /// may be descheduled without the next baton holder blocking for real).
+        pub struct Mutex<T> {
+            inner: ::std::sync::Mutex<T>,
+            id: usize,
+        }
+        pub struct MutexGuard<'a, T> {
+            g: ::std::mem::ManuallyDrop<::std::sync::MutexGuard<'a, T>>,
+            id: usize,
+        }
+        impl<T> Mutex<T> {
+            pub fn new(t: T) -> Self {
+                Mutex { inner: ::std::sync::Mutex::new(t), id: crate::verif_hooks::next_id() }
+            }
+            pub fn lock(&self) -> ::std::sync::LockResult<MutexGuard<'_, T>> {
+                if let Some(h) = crate::verif_hooks::hooks() {
+                    h.mutex_lock(self.id);
+                }
+                match self.inner.lock() {
+                    Ok(g) => Ok(MutexGuard { g: ::std::mem::ManuallyDrop::new(g), id: self.id }),
+                    Err(p) => Err(::std::sync::PoisonError::new(MutexGuard {
+                        g: ::std::mem::ManuallyDrop::new(p.into_inner()),
+                        id: self.id,
+                    })),
+                }
+            }
+        }
+        impl<T> ::std::ops::Deref for Mutex<T> {
+            type Target = ::std::sync::Mutex<T>;
+            fn deref(&self) -> &Self::Target {
+                &self.inner
+            }
+        }
+        impl<'a, T> Drop for MutexGuard<'a, T> {
+            fn drop(&mut self) {
+                unsafe { ::std::mem::ManuallyDrop::drop(&mut self.g) };
+                if let Some(h) = crate::verif_hooks::hooks() {
+                    h.mutex_unlock(self.id);
+                }
+            }
+        }
+        impl<'a, T> ::std::ops::Deref for MutexGuard<'a, T> {
+            type Target = T;
+            fn deref(&self) -> &T {
+                &self.g
+            }
+        }
+        impl<'a, T> ::std::ops::DerefMut for MutexGuard<'a, T> {
+            fn deref_mut(&mut self) -> &mut T {
+                &mut self.g
+            }
+        }
 
         pub mod atomic {
             pub use ::std::sync::atomic::*;
